@@ -2,6 +2,7 @@ package model
 
 import (
 	"net/url"
+	"regexp"
 	"strings"
 
 	"verif/internal/dt"
@@ -287,7 +288,11 @@ func httpNode(h *HTTP, grouped bool, c Chooser, seq int) *dt.Node {
 
 // ---------------------------------------------------------------- expected JDoc
 
-func annotation(s string) string { return strings.Join(strings.Fields(s), " ") }
+// annotation: what the catalog keeps of an annotation — trimmed, runs of ASCII white space collapsed to one blank. Other
+// Unicode space characters inside the text are content.
+func annotation(s string) string { return asciiSpaces.ReplaceAllString(strings.TrimSpace(s), " ") }
+
+var asciiSpaces = regexp.MustCompile(`[\t\n\f\r ]+`)
 
 func bodyJSON(b Body, example bool) (format string, schema *O) {
 	switch b.Kind {
